@@ -129,7 +129,11 @@ func (o *oracle) after(line, res string, pre, st *mstate, kc kase, all bool) boo
 				got, _ := im.readRoot("HEAD")
 				o.rep.Hit("oracle/C31/own-parent")
 				if ok, why := rootEq(got, want, true); !ok {
-					o.rep.Violate("C31/cherry-pick-onto-own-parent/data", fmt.Sprintf("cherry-pick of commit %d onto its own parent does not reproduce its data: %s", c, why), kc)
+					if ok2, _ := rootEq(normCols(got), normCols(want), false); ok2 {
+						o.rep.Known("C31/cherry-pick-onto-own-parent/column-order", fmt.Sprintf("cherry-pick of commit %d onto its own parent reproduces its rows but appends the column the commit has in the middle of its column list: %s", c, why), kc)
+					} else {
+						o.rep.Violate("C31/cherry-pick-onto-own-parent/data", fmt.Sprintf("cherry-pick of commit %d onto its own parent does not reproduce its data: %s", c, why), kc)
+					}
 				}
 			})
 			// reverting the latest commit restores its parent's data
@@ -307,6 +311,9 @@ func (o *oracle) mergeDef(kind, ref string, pre, st *mstate, kc kase) {
 	newHead := im.hashes[st.branches[st.cur]]
 	if strings.HasPrefix(rs, "HEAD") {
 		rs = newHead + "~1" + rs[4:]
+	} else if strings.HasPrefix(ref, "b") && (rs == pre.cur || strings.HasPrefix(rs, pre.cur+"~")) {
+		// the current branch's name: it meant the old head
+		rs = newHead + "~1" + rs[len(pre.cur):]
 	}
 	cRoot, e1 := im.readRoot(rs)
 	pRoot, e2 := im.readRoot(rs + "~1")
@@ -514,8 +521,14 @@ func (o *oracle) diffBrute(a, b string, kc kase) {
 
 // checkDiff compares reported diff rows with the brute-force diff of two table dumps.
 // `layout`: the from/to cells are laid out by the tables' own columns (dolt_diff()).
-func (o *oracle) checkDiff(what, n string, ta, tb *table, got []diffRow, kc kase, sameSchema bool) {
+func (o *oracle) checkDiff(what, n string, ta, tb *table, got []diffRow, kc kase, sameSchema bool, raw ...*table) {
 	layout := true
+	// raw[0], raw[1]: the two tables in their own layouts when ta / tb are projections (dolt_diff_<t>):
+	// a change in a column the current schema no longer shows is a real change
+	var rawA, rawB map[int64][]string
+	if len(raw) == 2 {
+		rawA, rawB = rowMap(raw[0]), rowMap(raw[1])
+	}
 	am, bm := rowMap(ta), rowMap(tb)
 	seen := map[int64]bool{}
 	last := int64(0)
@@ -549,7 +562,9 @@ func (o *oracle) checkDiff(what, n string, ta, tb *table, got []diffRow, kc kase
 			}
 		}
 		if wantTy == "modified" && visiblyEqual(ta.Cols, f, tb.Cols, t) {
-			if sameSchema {
+			if rawA != nil && !eqCells(rawA[d.PK], rawB[d.PK]) {
+				o.rep.Hit("oracle/C32/hidden-column-modified-row")
+			} else if sameSchema {
 				o.rep.Violate("C32/"+what+"/spurious", fmt.Sprintf("%s on %s: key %d reported modified but the rows are equal", what, n, d.PK), kc)
 			} else {
 				o.rep.Hit("oracle/C32/schema-only-modified-row")
@@ -689,7 +704,7 @@ func (o *oracle) diffTableEdges(n string, st *mstate, kc kase) {
 			continue
 		}
 		// values are laid out by the current schema: compare against projected tables
-		o.checkDiff("dolt_diff_t", n, proj(ft), proj(tt), got, kc, ft == nil || tt == nil || showCols(ft.Cols) == showCols(tt.Cols))
+		o.checkDiff("dolt_diff_t", n, proj(ft), proj(tt), got, kc, ft == nil || tt == nil || showCols(ft.Cols) == showCols(tt.Cols), ft, tt)
 	}
 	// walk the first-parent chain from HEAD
 	id := st.branches[st.cur]
